@@ -266,8 +266,8 @@ var propNotes = map[string]string{
 	"C04": "clauses hold while at least four bytes are in memory (composition with refill at buffer boundaries is not proved); that the string under construction never aliases the scanner buffers is an antecedent, not proved; ScanToken dispatch, numbers, names, ASCII85, comments/DSC, String.PS / Name.PS round trips not under contract.",
 	"C05": "transparency of whole programs is the modular consequence of the byte-layer contracts, not a replayed equality; hex de-armouring loop of readByteEexec, readstring byte-exactness, the regurgitate path of BeginEexec and which mode value is stored after detection are not under functional contract.",
 	"C06": "covered: charstring decryption, number decoding, path/hint/side-bearing/div/setcurrentpoint/closepath/flex-move steps of decodeCharString. Not covered: callsubr/return/callothersubr argument handling, flex end curves, seac assembly, dictionary extraction by type1.Read through the interpreter, defaults of Private values, creation date parsing.",
-	"C07": "endcodespacerange entries, usecmap, rejection of low > high in range mappings and ReadCMap's choice among several CMaps (sorted keys: see C17) are not under functional contract; sort.Slice and bytes.Compare are trusted.",
-	"C08": "covered: charstring obfuscation, eexec writer cipher and buffering invariant, stem hint encoding, number formats (C20). Not covered: template text, PFB framing lengths, Length1/2/3, the lead-byte search termination, writeEncoding / isStandardEncoding (known question: .notdef at a standard code), hex writer line structure.",
+	"C07": "covered: the seven end* block operators, begin* limits, usecmap, range ordering and destination types, table comparators. Not covered: endcmap producing sorted tables (sort.Slice trusted; only the comparators are verified), ReadCMap's choice among several CMaps beyond determinism (C17), CIDSystemInfo/CMapType/WMode (ordinary def operators, C02).",
+	"C08": "covered: charstring obfuscation, eexec writer cipher and buffering invariant, stem hint encoding, number formats (C20), the StandardEncoding shortcut condition. Not covered: template text, PFB framing lengths, Length1/2/3, termination of the lead-byte search, the explicit encoding array text (writeEncoding through fmt), hex writer line structure.",
 	"C10": "'writing succeeds without error' depends on text/template and Name.PS rejecting non-regular names (a glyph named << is accepted by the reader and refused by the writer: not claimed); re-read equalities go through text/template and the interpreter and are not expressible. Covered: no panic in any writer function for fonts satisfying fontWF, type1.Read establishes fontWF, coordinates within 1/214 (shared with C20).",
 	"C11": "'never counting past N+1' on the error-handler path and the two-run equality 'same state as with no budget' are not claimed; Go stack depth is not a value a contract can see; size limits of array/string/dict are covered by C01's make obligations only.",
 	"C12": "covered: the clear-text byte layer (refill, readByteRaw, readByte, Next, Peek) over the ghost input tape for every delivery schedule. Not covered: eexec mode, composition with the token layer beyond C04's per-token contracts, split-Execute equivalence, seekable vs non-seekable peek in type1.Read, afm.Read (bufio.Scanner, trusted), pfb (see C14).",
